@@ -57,6 +57,18 @@ type Option func(c *Config)
 
 func WithReconnectBackoff(minDelay, maxDelay time.Duration) func(c *Config) {
 	return func(c *Config) {
+		// a zero (or negative) minimum makes every delay zero and a zero maximum
+		// clamps every delay to zero: the redial loop would not be spaced at all.
+		// Such a bound is taken as "not given" and falls back to its default
+		if minDelay <= 0 {
+			minDelay = 100 * time.Millisecond
+		}
+		if maxDelay <= 0 {
+			maxDelay = 5 * time.Second
+		}
+		if maxDelay < minDelay {
+			maxDelay = minDelay
+		}
 		c.reconnectBackoff = backoff{
 			minDelay: minDelay,
 			maxDelay: maxDelay,
